@@ -106,7 +106,9 @@ def run_case(ctx, case):
             files = dict(case["files"])
             files.update(changed)
             nb = behaviour(top, files, main, "r%d" % counter[0])
-            if (nb[0], nb[1]) != base:
+            if nb[0] == "timeout":
+                ctx.inconclusive += 1
+            elif (nb[0], nb[1]) != base:
                 devs.append(("behaviour-changed:%s:%s" % (refname, selcls), where + " old=%r new=%r" % (base[0][-60:], nb[1] or nb[0][-60:])))
                 return None
         return new_main
@@ -137,7 +139,9 @@ def run_case(ctx, case):
                         counter[0] += 1
                         nb = behaviour(top, files, main, "i%d" % counter[0])
                         ctx.cls("extract-then-inline")
-                        if (nb[0], nb[1]) != base:
+                        if nb[0] == "timeout":
+                            ctx.inconclusive += 1
+                        elif (nb[0], nb[1]) != base:
                             devs.append(("extract-then-inline-changes-behaviour:" + sel, "%r at (%d,%d): new=%r" % (src_text[:40], l, c, nb[1] or nb[0][-60:])))
                     except jedi.RefactoringError:
                         ctx.cls("refused:inline-after-extract")
